@@ -164,6 +164,8 @@ def chain(e):
     """unroll an iterator-adaptor expression: returns (source_expr, [(method, extra_args, call_expr)...]) from the
     source outwards"""
     stages = []
+    while isinstance(e, tuple) and e and e[0] in ("ref", "deref") and len(e) == 2:
+        e = e[1]
     while isinstance(e, tuple) and e and e[0] == "call" and e[2]:
         name = e[1]
         if not any(name == a or name.endswith("::" + a) for a in ADAPTORS):
